@@ -58,7 +58,7 @@ func init() {
 	}
 	for i := 1; i <= 20; i++ {
 		id := fmt.Sprintf("C%02d", i)
-		props[id] = propInfo{Level: "model_checking", QuickCap: 150 * time.Second, ThorCap: 25 * time.Minute, Assume: common}
+		props[id] = propInfo{Level: "model_checking", QuickCap: 240 * time.Second, ThorCap: 25 * time.Minute, Assume: common}
 	}
 	p := props["C18"]
 	p.RaceBuild = true
